@@ -125,6 +125,67 @@ def _inline_feats(inl, f):
         f.add("run.multi")
 
 
+def validate(doc):
+    """Reject ill-formed models (the shrinker may propose them): X tokens only in excluded regions, B tokens only in the body, tokens unique."""
+    from vf.gen.tokens import TOKEN_RE
+    seen = set()
+
+    def tokchk(tok, want):
+        assert TOKEN_RE.fullmatch(tok) and tok[1] in want, (tok, want)
+        assert tok not in seen or tok[1] == "M", tok
+        seen.add(tok)
+
+    def inl(xs, want):
+        assert isinstance(xs, list)
+        for i in xs:
+            k = i["k"]
+            if k == "t":
+                tokchk(i["tok"], want)
+            elif k == "del":
+                inl(i["inl"], "X")
+            elif k == "note":
+                inl(i["inl"], "M")
+            elif k == "field":
+                tokchk(i["tok"], "M")
+            elif k in ("link", "ins", "sdt"):
+                inl(i["inl"], want)
+            elif k == "cref":
+                assert 0 <= i["id"] < len(doc.get("comments") or [])
+            else:
+                assert k in ("tab", "br"), k
+
+    def blocks(bs):
+        for b in bs:
+            k = b["k"]
+            if k == "p":
+                inl(b["inl"], "BM")
+            elif k == "list":
+                assert b["items"]
+                for it in list_items(b["items"]):
+                    inl(it["inl"], "BM")
+            elif k == "tbl":
+                assert b["rows"] and all(r for r in b["rows"])
+                for row in b["rows"]:
+                    for c in row:
+                        blocks(c["blocks"])
+            elif k == "box":
+                assert b["kind"] in ("sdt", "section", "textbox", "group", "custom-shape") and b["blocks"]
+                blocks(b["blocks"])
+            else:
+                assert k in ("img", "math", "pb"), k
+    assert doc["units"]
+    for u in doc["units"]:
+        blocks(u["blocks"])
+        if u.get("notes") is not None:
+            inl(u["notes"], "X")
+    for region in ("header", "footer"):
+        if doc.get(region) is not None:
+            inl(doc[region], "X")
+    for c in doc.get("comments") or []:
+        inl(c, "X")
+    return True
+
+
 # ---- expectation walk -----------------------------------------------------------------------------------------
 class Expect:
     """What the documentation promises for this document in this format."""
@@ -315,7 +376,7 @@ def documents(draw, profile, max_units=None, max_blocks=5, allow=None):
         if has("table.simple"):
             opts.append("tbl")
         if depth < 1:
-            for kind in ("sdt", "section", "textbox", "group"):
+            for kind in ("sdt", "section", "textbox", "group", "custom-shape"):
                 if has("container." + kind):
                     opts.append("box:" + kind)
         k = draw(st.sampled_from(opts))
@@ -326,6 +387,8 @@ def documents(draw, profile, max_units=None, max_blocks=5, allow=None):
         if k == "tbl":
             return table()
         kind = k.split(":")[1]
+        if kind == "custom-shape":
+            return {"k": "box", "kind": kind, "blocks": [para(heading_ok=False) for _ in range(draw(st.integers(1, 2)))]}
         return {"k": "box", "kind": kind, "blocks": [block(depth + 1) for _ in range(draw(st.integers(1, 2)))]}
 
     comments: list = []
@@ -340,6 +403,8 @@ def documents(draw, profile, max_units=None, max_blocks=5, allow=None):
         if has("excluded.speaker-notes") and chance(3):
             u["notes"] = inlines(1, "X")
         units.append(u)
+    if has("excluded.comment") and not has("run.comment-ref") and chance(2):
+        comments.append(inlines(1, "X"))  # unanchored (page-level) comment
     doc = {"props": {}, "units": units, "header": None, "footer": None, "comments": comments}
     if has("excluded.header-footer") and chance(2):
         doc["header"] = inlines(1, "X")
